@@ -85,9 +85,9 @@ def judge(ctx, inputs, label, preds=None):
     return obs
 
 
-def replay(ctx, path):
+def replay(ctx, path, preds=None):
     r = json.load(open(path))
-    judge(ctx, r["inputs"], "replay")
+    judge(ctx, r["inputs"], "replay", preds=preds)
     return vlib.finish(ctx, rule="replay of recorded inputs")
 
 
